@@ -220,21 +220,72 @@ def run_dump(unit, tier, res):
             res.sample({'kind': 'dump', 'family': name, 'value': show(vals[0])}, 1)
 
 
+STR_POSITIONS = ['top', 'dict-key', 'class-attr', 'any', 'userstring', 'list-item', 'extra-attr']
+
+
+def run_dump_strings(pos, tier, res):
+    """every fixed string (non-ASCII, line breaks, look-alikes, long lines ...) at one position, through every
+    dump variant and sink"""
+    spec = dumpcat.string_spec(pos)
+    b = models.build(spec)
+    mk = dumpcat.STRING_POSITIONS[pos][2]
+    dump = yatiml.dump_function(*b.registered)
+    dumpj = yatiml.dump_json_function(*b.registered)
+    dumps = yatiml.dumps_function(*b.registered)
+    dumpsj = yatiml.dumps_json_function(*b.registered)
+    for s in dumpcat.fixed_strings():
+        for vname, fn in dump_variants(dump, dumpj):
+            res.states += 1
+            try:
+                v = mk(b, s)
+                if vname == 'yaml':
+                    want = dumps(v)
+                else:
+                    ind = eval(vname.split('indent=')[1].split('-ascii')[0])
+                    want = dumpsj(v, indent=ind, ensure_ascii=vname.endswith('True'))
+            except Exception as e:     # noqa
+                res.hist['dumps-raises:' + type(e).__name__] += 1
+                continue
+            if not encodable(want):
+                res.hist['not-encodable'] += 1
+                continue
+            if not want.isascii() or '\n' in want[:-1]:
+                res.nontrivial += 1
+            for sink in SINKS:
+                res.transitions += 1
+                res.traces += 1
+                try:
+                    got = write_to(fn, mk(b, s), sink, 'out.txt')
+                except Exception as e:     # noqa
+                    got = '%s: %s' % (type(e).__name__, e)
+                if got != want:
+                    res.violation('C12:dump:%s:%s' % (sink, vname.split('-')[0]),
+                                  '%s of %s to a %s wrote %r, the dumps twin returns %r' % (vname, show(v), sink, got, want),
+                                  {'kind': 'dumpstr', 'position': pos, 'string': s, 'variant': vname, 'sink': sink})
+                else:
+                    res.hist['dump-identical'] += 1
+                    if not want.isascii():
+                        res.hist['dump-identical-non-ascii'] += 1
+
+
 def units(tier):
-    return [('load', i) for i in range(len(load_models(tier)))] + [('dump', i) for i in range(len(C06.families()))]
+    return [('load', i) for i in range(len(load_models(tier)))] + [('dump', i) for i in range(len(C06.families()))] + \
+        [('dumpstr', p) for p in (STR_POSITIONS[:4] if tier == 'quick' else STR_POSITIONS)]
 
 
 def run_unit(unit, tier):
     res = core.Result()
     if unit[0] == 'load':
         run_load(unit[1], tier, res)
+    elif unit[0] == 'dumpstr':
+        run_dump_strings(unit[1], tier, res)
     else:
         run_dump(unit[1], tier, res)
     return res
 
 
 def finish(total, tier):
-    if total.hist['load:ok'] < 100 or total.hist['load:err'] < 100 or total.hist['dump-identical'] < 1000:
+    if total.hist['load:ok'] < 100 or total.hist['load:err'] < 100 or total.hist['dump-identical'] < 1000 or total.hist['dump-identical-non-ascii'] < 100:
         raise core.Vacuous('load ok=%d err=%d dump=%d' % (total.hist['load:ok'], total.hist['load:err'], total.hist['dump-identical']))
 
 
@@ -246,6 +297,19 @@ def replay(payload):
         o = load_outcome(case.load, payload['source'], payload['text'], 'doc.yaml')
         same = (o[0] == base[0] == 'ok' and eqv(o[1], base[1])) or (o[0] != 'ok' and o == base)
         return (not same), 'from str: %s; from %s: %s' % (show(base[1:]), payload['source'], show(o[1:]))
+    if payload['kind'] == 'dumpstr':
+        b = models.build(dumpcat.string_spec(payload['position']))
+        mk = dumpcat.STRING_POSITIONS[payload['position']][2]
+        vname = payload['variant']
+        fn = dict(dump_variants(yatiml.dump_function(*b.registered), yatiml.dump_json_function(*b.registered)))[vname]
+        v = mk(b, payload['string'])
+        if vname == 'yaml':
+            want = yatiml.dumps_function(*b.registered)(v)
+        else:
+            want = yatiml.dumps_json_function(*b.registered)(v, indent=eval(vname.split('indent=')[1].split('-ascii')[0]),
+                                                             ensure_ascii=vname.endswith('True'))
+        got = write_to(fn, mk(b, payload['string']), payload['sink'], 'out.txt')
+        return got != want, 'sink wrote %r, dumps returns %r' % (got, want)
     for name, spec, maker in C06.families():
         if name == payload['family']:
             b = models.build(spec)
